@@ -8,7 +8,7 @@
    Field table (header name -> raw key, kind): Gen/MetaTable.v (regenerated).  Statements only; proofs in Email/EmailFacts.v. *)
 From Coq Require Import String List Arith NArith Bool Lia Permutation.
 Import ListNotations.
-Require Import Show VParse MetaTable MetaSpecTable MetaBase MetaBaseFacts EmailModel EmailFacts EmailRound.
+Require Import Show VParse MetaTable MetaSpecTable MetaBase MetaBaseFacts EmailModel EmailFacts EmailRound EmailFinal EmailText EmailTextFacts EmailRespell.
 Open Scope N_scope.
 
 (* 0. the header-name map and field kinds extracted from the working tree on this run are those of the core-metadata specification *)
@@ -157,4 +157,111 @@ Example C18_nonvacuous :
   ([(asc "keywords", RList [asc "x"; asc "y"; asc "z"]); (asc "classifiers", RList [asc "A"; asc "B"]); (asc "description", RStr (asc "body"))],
    [(asc "name", [UStr (asc "a"); UStr (asc "b")]); (asc "project-url", [UStr (asc "Home, http://h"); UStr (asc "Home, http://g")]);
     (asc "summary", [UStr (asc "s")])]).
+Proof. vm_compute. reflexivity. Qed.
+
+
+(* ====================================================================================================================================
+   Improvement round.  (a) the partition / no-loss / no-invention statements on the FINAL state [post_email items p] (loop AND body merge);
+   (b) the round trip through TEXT: [ser_text spell r] is the document the serialiser writes, [parse_lines] cuts a document of plain
+   "Name: value" lines + blank line + body into the header list and payload (None on any other document), and the oracle assumption
+   shrinks to "the email package agrees with parse_lines on such documents" (checked by the command e.lines). *)
+
+(* 6. FINAL-STATE PARTITION: every name that is present - a (lower-cased) header name, or 'description' when there is a body - is under
+      exactly one of the two RETURNED dicts; conversely every key of either dict stems from a name that is present *)
+Theorem C18_final_partition items p n : present items p n ->
+  (exists k kind, raw_of_email n = Some (k, kind) /\ lookup k (fst (post_email items p)) <> None /\ lookup n (snd (post_email items p)) = None) \/
+  (lookup n (snd (post_email items p)) <> None /\ forall k kind, raw_of_email n = Some (k, kind) -> lookup k (fst (post_email items p)) = None).
+Proof. apply post_partition. Qed.
+Print Assumptions C18_final_partition.
+Theorem C18_final_no_invention items p :
+  (forall k v, lookup k (fst (post_email items p)) = Some v -> exists n kind, raw_of_email n = Some (k, kind) /\ present items p n) /\
+  (forall m vs, lookup m (snd (post_email items p)) = Some vs -> present items p m).
+Proof. apply post_no_invention. Qed.
+Print Assumptions C18_final_no_invention.
+
+(* 7. NO VALUE DROPPED, final state, tied to the name's own key, with multiplicity: the dict the name of a header went to holds ALL the
+      values of that name in document order - unparsed: the list under the name starts with exactly them (only a description body can
+      follow) and the name's RawMetadata key is not in raw; raw: under the RawMetadata key OF THAT NAME sits the value that
+      C18_typed_no_loss determines from exactly that list of values (the single value / the whole list / its comma-split / its pairs) *)
+Theorem C18_final_no_value_dropped items p i : In i items ->
+  let n := lower_name (i_name i) in let fin := post_email items p in
+  In (i_val i) (values items n) /\
+  ((exists rest, lookup n (snd fin) = Some (map UStr (values items n) ++ rest) /\
+                 forall k kind, raw_of_email n = Some (k, kind) -> lookup k (fst fin) = None) \/
+   (lookup n (snd fin) = None /\ exists k kind v, raw_of_email n = Some (k, kind) /\ classify items n = CRaw k v /\ lookup k (fst fin) = Some v)).
+Proof. apply post_every_value_kept. Qed.
+Print Assumptions C18_final_no_value_dropped.
+
+(* 8. TEXT: documents made of simple header lines and a body are cut into exactly those headers and that body ... *)
+Theorem C18_parse_lines_of_text items p : (forall i, In i items -> simple_item i) -> (exists b, p = POk b) ->
+  parse_lines (text_of items p) = Some (items, p).
+Proof. apply parse_text_of. Qed.
+Print Assumptions C18_parse_lines_of_text.
+(* ... so the ROUND TRIP holds through the text: on top of [wf r], [wf_text] asks that no value (the description, which is the body,
+   excepted) contains a line-break character (LF CR VT FF FS GS RS NEL LS PS: str.splitlines) and that string values and list items
+   do not begin with a blank (the header parser strips leading blanks) - the domain where the round trip of the real code holds *)
+Theorem C18_text_roundtrip spell r : (forall n, lower_name (spell n) = lower_name n) -> (forall n, header_name_ok n = true -> header_name_ok (spell n) = true) ->
+  wf_text r ->
+  parse_lines (ser_text spell r) = Some (ser_items spell r, ser_payload r) /\
+  exists items p, parse_lines (ser_text spell r) = Some (items, p) /\ snd (post_email items p) = [] /\ forall k, lookup k (fst (post_email items p)) = lookup k r.
+Proof. intros S1 S2 W. split; [now apply parse_ser_text | now apply text_roundtrip]. Qed.
+Print Assumptions C18_text_roundtrip.
+
+(* non-vacuity of part 8 and NECESSITY of the extra conditions: for a text-well-formed dict the computed trip gives the dict back;
+   [wf] alone is not enough - {"name": " x"} is in [wf] and comes back as {"name": "x"} (the real code does the same, see the
+   law.e.roundtrip-neg cases of the harness) *)
+Definition dict_eqb (a b : list (list N * rawval)) : bool :=
+  forallb (fun kv => match lookup (fst kv) b, snd kv with
+                     | Some (RStr x), RStr y => seqb x y
+                     | Some (RList x), RList y => seqb (join [10] x) (join [10] y) && (length x =? length y)%nat
+                     | Some (RDict x), RDict y => seqb (join [10] (map (fun p => fst p ++ [10] ++ snd p) x)) (join [10] (map (fun p => fst p ++ [10] ++ snd p) y))
+                     | _, _ => false end) a && (length a =? length b)%nat.
+Definition trip (r : list (list N * rawval)) : option dicts :=
+  match parse_lines (ser_text (fun n => n) r) with Some (items, p) => Some (post_email items p) | None => None end.
+Definition r_text : list (list N * rawval) :=
+  [(asc "name", RStr (asc "a b ")); (asc "keywords", RList [asc "x"; asc "y z"]); (asc "description", RStr (asc "body" ++ [10; 13; 10] ++ asc " more"));
+   (asc "project_urls", RDict [(asc "Home", asc "http://h"); (asc "", [])]); (asc "classifiers", RList [asc "A, B"; asc "C :: D "]); (asc "summary", RStr [])].
+Definition text_check : bool :=
+  match trip r_text with Some (raw, []) => dict_eqb r_text raw | _ => false end &&
+  match trip [(asc "name", RStr (asc " x"))] with Some (raw, []) => dict_eqb [(asc "name", RStr (asc "x"))] raw | _ => false end &&
+  match trip [(asc "summary", RStr (asc "a" ++ [10] ++ asc "b"))], trip [(asc "classifiers", RList [asc "x" ++ [13]])] with None, None => true | _, _ => false end.
+Example C18_text_nonvacuous : text_check = true.
+Proof. vm_compute. reflexivity. Qed.
+Example C18_wf_text_satisfiable : wf_text [(asc "name", RStr (asc "a b ")); (asc "description", RStr (asc "x" ++ [10] ++ asc " y")); (asc "classifiers", RList [asc "A, B"])].
+Proof.
+  split; [split|].
+  - vm_compute. repeat constructor; cbn [In]; intuition discriminate.
+  - intros kv [<-|[<-|[<-|[]]]]; eexists; eexists; (split; [vm_compute; reflexivity|]); cbn [snd fst].
+    + split; auto. intros H; vm_compute in H; discriminate H.
+    + split; auto. intros _. discriminate.
+    + split; [discriminate|]. left. reflexivity.
+  - intros kv [<-|[<-|[<-|[]]]]; cbn [wf_text_entry fst snd].
+    + right. split; [|vm_compute; reflexivity]. intros c H. cbn [In] in H. repeat (destruct H as [<-|H]; [reflexivity|]). contradiction.
+    + left. reflexivity.
+    + right. intros x [<-|[]]. split; [|vm_compute; reflexivity]. intros c H. cbn [In] in H. repeat (destruct H as [<-|H]; [reflexivity|]). contradiction.
+Qed.
+
+(* 9. header names are case-insensitive PER LINE: header lists that agree line by line up to the capitalisation of the names leave the
+      same two dicts; hence the round trip for any capitalisation of every single line (C18_roundtrip spells all occurrences of a name alike) *)
+Theorem C18_spelling_per_line_irrelevant a b p : same_doc a b -> deq (post_email a p) (post_email b p).
+Proof. apply respell_irrelevant. Qed.
+Print Assumptions C18_spelling_per_line_irrelevant.
+Theorem C18_roundtrip_any_spelling r items : wf r -> same_doc (ser_items (fun n => n) r) items ->
+  snd (post_email items (ser_payload r)) = [] /\ forall k, lookup k (fst (post_email items (ser_payload r))) = lookup k r.
+Proof. apply roundtrip_any_spelling. Qed.
+Print Assumptions C18_roundtrip_any_spelling.
+(* 10. a Description header that the loop put into raw is a str (the PErr / body branches of C18_description_rule render it with [ustr_of],
+       whose default for other shapes is therefore never used) and then 'description' is not in unparsed *)
+Theorem C18_description_header_is_str items h : lookup k_description (fst (loop_result items)) = Some h ->
+  (exists x, values items k_description = [x] /\ h = RStr x /\ ustr_of h = UStr x) /\ lookup k_description (snd (loop_result items)) = None.
+Proof. intros L. destruct (loop_description_raw items h L) as [[x [V ->]] U]. split; eauto. Qed.
+Print Assumptions C18_description_header_is_str.
+Definition respell_check : bool :=
+  let a := [it "Name" "a" true; it "Classifier" "A" true; it "classifier" "B" true] in
+  let b := [it "NAME" "a" true; it "cLASSIFIER" "A" true; it "Classifier" "B" true] in
+  match post_email a (POk []), post_email b (POk []) with
+  | (ra, []), (rb, []) => dict_eqb ra rb && (length ra =? 2)%nat
+  | _, _ => false
+  end.
+Example C18_respell_nonvacuous : respell_check = true.
 Proof. vm_compute. reflexivity. Qed.
